@@ -1,0 +1,116 @@
+//! Verification hooks for the concurrent-writers property of the RIB unit
+//! (feature `verif-hooks`, add-only).
+//!
+//! Mounted as a child module of `rib_unit::unit` (one cfg'd `#[path] pub mod`
+//! line at the end of `unit.rs`): the fields of `RibUnitRunner` are private
+//! to that module and its only field-wise constructor, `RibUnitRunner::mock`,
+//! is `cfg(test)`.
+//!
+//! Nothing here has behaviour of its own. `new_runner` builds the runner field
+//! for field as `RibUnitRunner::mock("", RibType::Physical)` does (physical
+//! RIB, no roto filter, a gate without subscribers); the other functions are
+//! plain calls of the real code. The harness shares one runner between OS
+//! threads, which is what `DirectUpdate::direct_update` does in production
+//! (it runs `process_update` on the publisher's task).
+
+use std::sync::Arc;
+
+use arc_swap::ArcSwap;
+use routecore::bgp::types::AfiSafiType;
+
+use super::super::http::PrefixesApi;
+use super::super::rib::Rib;
+use super::super::statistics::RibMergeUpdateStatistics;
+use super::super::status_reporter::RibUnitStatusReporter;
+use super::{QueryLimits, RibType, RibUnitRunner};
+use crate::common::frim::FrimMap;
+use crate::comms::{Gate, GateAgent};
+use crate::ingress::IngressId;
+use crate::payload::Update;
+use crate::roto_runtime::types::FilterName;
+use crate::tokio::TokioTaskMetrics;
+use crate::tracing::Tracer;
+
+/// A shareable physical RIB unit runner. Keeps the `GateAgent` alive.
+pub struct ConcRib {
+    runner: RibUnitRunner,
+    _agent: GateAgent,
+}
+
+impl ConcRib {
+    pub fn new() -> Self {
+        let rib_type = RibType::Physical;
+        let (gate, gate_agent) = Gate::new(0);
+        let gate = gate.into();
+        let query_limits =
+            Arc::new(ArcSwap::from_pointee(QueryLimits::default()));
+        let rib = Rib::new_physical();
+        let status_reporter = RibUnitStatusReporter::default().into();
+        let pending_vrib_query_results = Arc::new(FrimMap::default());
+        let filter_name =
+            Arc::new(ArcSwap::from_pointee(FilterName::default()));
+        let _process_metrics = Arc::new(TokioTaskMetrics::new());
+        let rib_merge_update_stats: Arc<RibMergeUpdateStatistics> =
+            Default::default();
+
+        let shared_rib = Arc::new(ArcSwap::new(Arc::new(rib)));
+        let http_processor = Arc::new(PrefixesApi::new(
+            shared_rib.clone(),
+            Arc::new("dummy".to_string()),
+            query_limits.clone(),
+            rib_type,
+            None,
+            pending_vrib_query_results.clone(),
+            Arc::default(), // ingress::Register
+        ));
+        let tracer = Arc::new(Tracer::new());
+
+        let runner = RibUnitRunner {
+            gate,
+            http_processor,
+            query_limits,
+            rib: shared_rib,
+            rib_type,
+            status_reporter,
+            filter_name,
+            pending_vrib_query_results,
+            _process_metrics,
+            rib_merge_update_stats,
+            tracer,
+            roto_function_pre: None,
+            roto_function_post: None,
+        };
+        ConcRib { runner, _agent: gate_agent }
+    }
+
+    /// `RibUnitRunner::process_update`, unchanged (it is `pub(super)`); this
+    /// is the body of `DirectUpdate::direct_update`.
+    pub async fn process_update(&self, update: Update) -> Result<(), String> {
+        self.runner.process_update(update).await
+    }
+
+    /// `Rib::withdraw_for_ingress` on the runner's current RIB (what
+    /// `RibUnitRunner::signal_withdraw` calls).
+    pub fn withdraw_for_ingress(
+        &self,
+        ingress_id: IngressId,
+        specific_afisafi: Option<AfiSafiType>,
+    ) {
+        self.runner
+            .rib
+            .load()
+            .withdraw_for_ingress(ingress_id, specific_afisafi)
+    }
+
+    /// The runner's current `Rib` (as `RibUnitRunner::rib()` under
+    /// `cfg(test)`); `Rib::match_prefix` is `pub`.
+    pub fn rib(&self) -> Arc<Rib> {
+        self.runner.rib.load().clone()
+    }
+}
+
+impl Default for ConcRib {
+    fn default() -> Self {
+        Self::new()
+    }
+}
